@@ -175,10 +175,14 @@ def run_path(I, con, vname, module, cls, fn, params, requires, ensures, raises, 
     except SymRaise as e:
         outcome = 'raise:' + e.exc_cls
         declared = None
-        for d in list(raises) + list(may_raise):
-            if matches_declared(world, e.exc_cls, d):
-                declared = d
-                break
+        chain = []
+        cur = e.exc_cls
+        while cur is not None and len(chain) < 20:
+            chain.append(cur)
+            cur = world.exc_bases.get(cur)
+        cands = [d for d in list(raises) + list(may_raise) if d in chain]
+        if cands:
+            declared = min(cands, key=chain.index)           # the most specific declared class
         if declared is None:
             path.oblige(f"{qual}:noexc:{e.exc_cls}", z3.BoolVal(False), note=f"raised at {e.origin}")
         else:
